@@ -430,6 +430,7 @@ func Generate(rng *rand.Rand, i int, thorough bool) *p2prig.Scenario {
 		for j := 1; j < nPeers && j < len(s.Nodes); j++ {
 			if s.Nodes[j].Kind == "laggard" {
 				s.Nodes[j].Silent = true
+				s.Nodes[j].MaxLive = 1 // one stalling connection: one stall detection (about two minutes) to wait for
 				if s.SlowConvergeWaitSec < 150 {
 					s.SlowConvergeWaitSec = 150
 				}
